@@ -30,7 +30,7 @@ RULE = ("templates rendered from a random item tree: text / ## comments / <%doc>
         "nesting depth <= 3; calls _(m), gettext(m), ngettext(s, p, n) with unique messages at random places; "
         "translator-comment blocks (1-3 ## lines, configured tag) at distance 0/1/2 lines, separated by text or by a "
         "message-less construct, followed by untagged ## lines; LF/CRLF; str input and bytes in utf-8 / latin-1 / "
-        "cp1251 with option and/or coding comment; a case is non-trivial when >= 1 planted call is present; distinct "
+        "cp1251 / koi8-r with option and/or coding comment, incl. comment and option naming different codecs (the comment wins); a case is non-trivial when >= 1 planted call is present; distinct "
         "= distinct rendered sources x flavour")
 ASSUMPTIONS = [
     "the Python-level call finders (babel.messages.extract.extract_python, lingua.extractors.python) are oracles: "
@@ -57,6 +57,7 @@ ENC_CHARS = {
     "utf-8": "\u00e9\u00fc\u0442\u0435\u4e16\u754c\u03b1\u00df",
     "latin-1": "\u00e9\u00fc\u00f6\u00df\u00e0\u00f1",
     "cp1251": "\u0442\u0435\u0441\u0442\u0416\u044f\u0451",
+    "koi8-r": "\u0442\u0435\u0441\u0442\u0416\u044f\u0451",
 }
 
 # --------------------------------------------------------------------------------------------- generator
@@ -925,9 +926,12 @@ def dec_msgs(line):
 
 def make_case(rng, wild, size):
     enc_mode = rng.choice(["str", "str", "opt:utf-8", "opt:latin-1", "opt:cp1251", "coding:utf-8", "coding:cp1251",
-                           "coding:latin-1", "both:utf-8", "both:cp1251"])
+                           "coding:latin-1", "both:utf-8", "both:cp1251",
+                           # magic comment and configured encoding DISAGREE (bytes input): the comment wins
+                           "conflict:cp1251:utf-8", "conflict:latin-1:utf-8", "conflict:koi8-r:latin-1",
+                           "conflict:utf-8:latin-1", "conflict:cp1251:latin-1", "conflict:utf-8:cp1251"])
     encoding = "utf-8" if enc_mode == "str" else enc_mode.split(":")[1]
-    charset = ENC_CHARS[encoding] if rng.random() < 0.8 else ""
+    charset = ENC_CHARS[encoding] if rng.random() < (0.95 if enc_mode.startswith("conflict") else 0.8) else ""
     tagsets = [["TR:"], ["TRANSLATORS:", "NOTE:"], ["TR:", "L10N"]]
     if wild or rng.random() < 0.08:
         tagsets += [["TR", "TR:"]]
@@ -952,11 +956,13 @@ def render_case(case):
     options = {}
     prefix = ""
     if mode != "str":
-        kind, encoding = mode.split(":")
-        if kind in ("coding", "both"):
+        kind, encoding = mode.split(":")[:2]
+        if kind in ("coding", "both", "conflict"):
             prefix = "## -*- coding: %s -*-\n" % encoding
         if kind in ("opt", "both"):
             options = {"encoding": encoding}
+        if kind == "conflict":       # the file is written in the codec of its magic comment; the option names another
+            options = {"encoding": mode.split(":")[2]}
     if prefix:
         # keep the renderer's offsets valid: re-render behind the prefix
         rd.src = prefix + rd.src
